@@ -167,6 +167,40 @@ theorem cap_convex {a b c : E3} {R s t : ℝ} (ha : ‖a‖ = 1) (hb : ‖b‖ =
         Real.arccos_le_arccos hin
     _ = R := Real.arccos_cos hR0 (by linarith [Real.pi_pos])
 
+/-- the same for any finite non-negative combination: every point of the spherical convex hull of
+    vertices lying in a cap of radius ≤ π/2 lies in that cap (so a polygon spanned by vertices on a
+    circle of radius ≤ 90° lies inside that circle) -/
+theorem cap_convex_sum {ι : Type} (s : Finset ι) (v : ι → E3) (w : ι → ℝ) {c : E3} {R : ℝ}
+    (hv : ∀ i ∈ s, ‖v i‖ = 1) (hc : ‖c‖ = 1) (hR0 : 0 ≤ R) (hR : R ≤ π / 2)
+    (hw : ∀ i ∈ s, 0 ≤ w i) (hn : ‖∑ i ∈ s, w i • v i‖ = 1) (h : ∀ i ∈ s, angle (v i) c ≤ R) :
+    angle (∑ i ∈ s, w i • v i) c ≤ R := by
+  have hcosR : 0 ≤ cos R := Real.cos_nonneg_of_neg_pi_div_two_le_of_le (by linarith) hR
+  have hcosi : ∀ i ∈ s, cos R ≤ inner ℝ (v i) c := by
+    intro i hi
+    have := Real.cos_le_cos_of_nonneg_of_le_pi (angle_nonneg (v i) c) (by linarith [Real.pi_pos]) (h i hi)
+    rwa [cos_angle, hv i hi, hc, mul_one, div_one] at this
+  have hsum : 1 ≤ ∑ i ∈ s, w i := by
+    have h1 := norm_sum_le s (fun i => w i • v i)
+    have h2 : ∑ i ∈ s, ‖w i • v i‖ = ∑ i ∈ s, w i := by
+      apply Finset.sum_congr rfl
+      intro i hi
+      rw [norm_smul, hv i hi, Real.norm_of_nonneg (hw i hi), mul_one]
+    rw [hn, h2] at h1
+    exact h1
+  have hin : cos R ≤ inner ℝ (∑ i ∈ s, w i • v i) c := by
+    rw [sum_inner]
+    have h3 : ∑ i ∈ s, w i * cos R ≤ ∑ i ∈ s, inner ℝ (w i • v i) c := by
+      apply Finset.sum_le_sum
+      intro i hi
+      rw [real_inner_smul_left]
+      exact mul_le_mul_of_nonneg_left (hcosi i hi) (hw i hi)
+    rw [← Finset.sum_mul] at h3
+    nlinarith
+  unfold angle
+  rw [hn, hc, mul_one, div_one]
+  calc arccos (inner ℝ (∑ i ∈ s, w i • v i) c) ≤ arccos (cos R) := Real.arccos_le_arccos hin
+    _ = R := Real.arccos_cos hR0 (by linarith [Real.pi_pos])
+
 /-! ### area: number of pixels × pixel area between two caps -/
 
 section area
